@@ -122,6 +122,8 @@ def run(ctx):
     ctx.attempt(r25, ctx, rep, ti)
     rep.rule('R2.6', 'table iterators yield their header before they read the first data row (header consultation at construction stays lazy)')
     ctx.attempt(r26, ctx, rep, ti)
+    rep.rule('R2.8', 'an argument that the code itself tests for being a petl container (isinstance(x, IterContainer / Table)) is not materialised (list / tuple / set / frozenset / sorted / len) while the pipeline is built')
+    ctx.attempt(r28, ctx, rep)
     rep.rule('R2.7', 'indexing / slicing a table (view[i], view[a:b]) reads a prefix: IterContainer.__getitem__ applies no eager consumer (len, list, sorted ...) to the table itself')
     ctx.attempt(r27, ctx, rep)
 
@@ -658,3 +660,35 @@ def r27(ctx, rep):
                      '%s: a slice or an index then reads every row of the pipeline before it returns the first one' % why, ev.node)
     if not bad:
         rep.held('R2.7', fn, 'view[i] / view[a:b]', 'only next() / islice over a fresh iterator', fn.node)
+
+
+# ------------------------------------------------------------------------ R2.8
+def r28(ctx, rep):
+    """`if isinstance(value, IterContainer): value = frozenset(value)` in a function that builds a view: the data rows
+    behind the container are read when the pipeline is constructed, not when rows are requested."""
+    from ..absint import parent_map, enclosing
+    n = 0
+    EAGER = {'list', 'tuple', 'set', 'frozenset', 'sorted', 'len', 'dict', 'Counter', 'sum', 'max', 'min'}
+    for fn in ctx.functions(['petl.transform']):
+        if fn.is_generator:
+            continue
+        pm = None
+        for x in own_nodes(fn.node):
+            if not (isinstance(x, ast.Call) and isinstance(x.func, ast.Name) and x.func.id in EAGER and len(x.args) >= 1 and
+                    isinstance(x.args[0], ast.Name) and x.args[0].id in fn.params):
+                continue
+            pname = x.args[0].id
+            pm = pm or parent_map(fn.node)
+            guarded = None
+            for p, c in enclosing(pm, x, stop=fn.node):
+                if isinstance(p, ast.If) and any(c is b for b in p.body):
+                    t = norm(p.test)
+                    if 'isinstance(%s' % pname in t and ('IterContainer' in t or 'Table' in t):
+                        guarded = p
+            if guarded is None:
+                continue
+            n += 1
+            rep.violated('R2.8', fn, norm(x)[:60], '`%s` is materialised with %s() exactly when it is a petl container: every data row '
+                         'behind it is read while the pipeline is being built, before any row is requested' % (pname, x.func.id), x)
+    if not n:
+        rep.held('R2.8', ('petl.transform', '*'), 'no petl container argument is materialised at construction', '', None)
